@@ -8,7 +8,7 @@
     l1 <i> <thr> <tgt> <fnex> <modaux> FILE|raw <hex>
                                      → decoder view: "#i e …" per entry, "#i c …" per expanded command,
                                        "#i xerr" when the expansion panics, "#i done|err"
-    l2 <i> <thr> <tgt> <fnex> <modaux> <restore> <bulk> <par> <tdb> <dbmap> <now>
+    l2 <i> <thr> <tgt> <fnex> <modaux> <restore> <bulk> <par> <tdb> <dbmap> <now> <tick>
        <dbBlack|-> <prefixBlack hex,..|-> <prefixWhite|-> <slotBlack a:b,..|-> <slotWhite|-> <nPre> (<db> <hexkey>)* FILE|raw <hex>
                                      → per-worker request log "#i w<k> <cmd> <args…>", "#i result ok|err"
 
@@ -58,6 +58,16 @@ def pCount : TP (LenForm × Nat) := fun ts => match ts with
     | _, _ => none
   | _ => none
 
+/-- element bytes: hex, or `*<n>.<hexbyte>` = n copies of one byte (large elements) -/
+def hexOrRep (s : String) : Option Bytes :=
+  if s.startsWith "*" then
+    match ((s.drop 1).toString).splitOn "." with
+    | [n, b] => match n.toNat?, Hex.decode b with
+      | some n, some [x] => some (List.replicate n x)
+      | _, _ => none
+    | _ => none
+  else Hex.decode s
+
 def parseOp (s : String) : Option LzfOp :=
   match s.toList with
   | 'l' :: h => (Hex.decodeChars h).map LzfOp.lit
@@ -75,7 +85,7 @@ def parseSE (t : String) : Option SE :=
   | [h, body] =>
     match h.toList with
     | ['r', f] => do
-      let s ← Hex.decode body
+      let s ← hexOrRep body
       let f ← lenFormOf f s.length
       pure (.raw f s)
     | ['i', '8'] => (strInt body).map .int8
@@ -143,6 +153,7 @@ def compress (bs : Bytes) : List LzfOp := Id.run do
 def wrapBlob (mode : String) (blob : Bytes) : Option SE :=
   match mode.toList with
   | ['w', 'z'] =>
+    if blob.length > 6000 then some (SE.plain blob) else
     let ops := compress blob
     if ops.isEmpty || lzfExpand ops != blob then some (SE.plain blob)
     else some (.lzf (minForm (lzfEmit ops).length) (minForm blob.length) ops)
@@ -156,9 +167,9 @@ def parseZE (t : String) : Option (Bool × ZEntry) :=
   match t.splitOn ":" with
   | [h, body] =>
     (match h with
-     | "s6" => (Hex.decode body).map ZEntry.s6
-     | "s14" => (Hex.decode body).map ZEntry.s14
-     | "s32" => (Hex.decode body).map ZEntry.s32
+     | "s6" => (hexOrRep body).map ZEntry.s6
+     | "s14" => (hexOrRep body).map ZEntry.s14
+     | "s32" => (hexOrRep body).map ZEntry.s32
      | "i4" => body.toNat?.map ZEntry.i4
      | "i8" => (strInt body).map ZEntry.i8
      | "i16" => (strInt body).map ZEntry.i16
@@ -184,9 +195,9 @@ def parseLE (t : String) : Option LPEntry :=
   | [h, body] =>
     match h with
     | "u7" => body.toNat?.map LPEntry.u7
-    | "s6" => (Hex.decode body).map LPEntry.s6
-    | "s12" => (Hex.decode body).map LPEntry.s12
-    | "s32" => (Hex.decode body).map LPEntry.s32
+    | "s6" => (hexOrRep body).map LPEntry.s6
+    | "s12" => (hexOrRep body).map LPEntry.s12
+    | "s32" => (hexOrRep body).map LPEntry.s32
     | "i13" => (strInt body).map LPEntry.i13
     | "i16" => (strInt body).map LPEntry.i16
     | "i24" => (strInt body).map LPEntry.i24
@@ -320,6 +331,23 @@ def pStream : TP StreamE := fun ts => do
             idmp := { duration := dur, maxEntries := mx, producers, added, dups } }, r10)
   | _ => none
 
+def pModOp : TP ModOp := fun ts => match ts with
+  | "s" :: r => (pSE r).map (fun (s, r') => (.str s, r'))
+  | t :: r => match t.splitOn ":" with
+    | ["i", n] => n.toNat?.map (fun n => (.sint n, r))
+    | ["u", n] => n.toNat?.map (fun n => (.uint n, r))
+    | ["f", h] => (Hex.decode h).map (fun b => (.float b, r))
+    | ["d", h] => (Hex.decode h).map (fun b => (.double b, r))
+    | _ => none
+  | [] => none
+
+/-- `<id> <n> OP*n` -/
+def pModule : TP (Nat × List ModOp) := fun ts => do
+  let (id, r) ← pNat ts
+  let (n, r1) ← pNat r
+  let (ops, r2) ← pMany pModOp n r1
+  pure ((id, ops), r2)
+
 def pObj : TP ObjE := fun ts => match ts with
   | "str" :: r => (pSE r).map (fun (s, r') => (.str s, r'))
   | "list" :: r => do
@@ -368,6 +396,7 @@ def pObj : TP ObjE := fun ts => match ts with
   | "hzl" :: r => (pWZL r).map (fun ((w, zl), r') => (.hashZiplist w zl, r'))
   | "hlp" :: r => (pWLP r).map (fun ((w, es), r') => (.hashListpack w es, r'))
   | "stream" :: r => (pStream r).map (fun (s, r') => (.stream s, r'))
+  | "mod2" :: r => (pModule r).map (fun ((id, ops), r') => (.module2 id ops, r'))
   | "raw" :: t :: h :: r => do
     let t ← t.toNat?
     let b ← Hex.decode h
@@ -402,6 +431,7 @@ def pItem : TP Item := fun ts => match ts with
   | "resize" :: r => (pPair pCount pCount r).map (fun (((f1, a), (f2, b)), r') => (.resizeDb f1 a f2 b, r'))
   | "slot" :: r => (pPair pNat (pPair pNat pNat) r).map (fun ((a, b, c), r') => (.slotInfo a b c, r'))
   | "fn" :: r => (pSE r).map (fun (s, r') => (.function s, r'))
+  | "modaux" :: r => (pModule r).map (fun ((id, ops), r') => (.moduleAux id ops, r'))
   | "k" :: r => do
     let (exp, r1) ← pExp r
     let (idle, r2) ← pIdle r1
@@ -438,7 +468,7 @@ def pFile : TP FileE := fun ts => match ts with
 /-- FILE description or `raw <hex>` → snapshot bytes -/
 def pBytes : TP Bytes := fun ts => match ts with
   | "raw" :: h :: r => (Hex.decode h).map (·, r)
-  | _ => (pFile ts).map (fun (f, r) => (rdbFile f, r))
+  | _ => (pFile ts).map (fun (f, r) => (rdbFileFast f, r))
 
 /-! ### rendering -/
 
@@ -531,7 +561,7 @@ def handle : List String → Option (List String)
   | "gen" :: i :: rest =>
     let tag := s!"#{i} "
     match pFile rest with
-    | some (f, []) => some ((tag ++ "file " ++ Hex.encode (rdbFile f)) :: keyLines tag f)
+    | some (f, []) => some ((tag ++ "file " ++ Hex.encode (rdbFileFast f)) :: keyLines tag f)
     | _ => some [tag ++ "bad-desc"]
   | "l1" :: i :: thr :: tgt :: fnex :: modaux :: rest =>
     let tag := s!"#{i} "
@@ -539,7 +569,7 @@ def handle : List String → Option (List String)
     | some thr, some tgt, some fnex, some (bs, []) =>
       some (l1Lines tag { thr, failModAux := modaux == "1" } { tgtMajor := tgt, fnExists := fnex } bs)
     | _, _, _, _ => some [tag ++ "bad-desc"]
-  | "l2" :: i :: thr :: tgt :: fnex :: modaux :: restore :: bulk :: par :: tdb :: dbmap :: now ::
+  | "l2" :: i :: thr :: tgt :: fnex :: modaux :: restore :: bulk :: par :: tdb :: dbmap :: now :: tick ::
       dbb :: pb :: pw :: sb :: sw :: npre :: rest =>
     let tag := s!"#{i} "
     let flt : Option (List Int × List Bytes × List Bytes × List (Nat × Nat) × List (Nat × Nat)) := do
@@ -547,14 +577,14 @@ def handle : List String → Option (List String)
     match flt with
     | none => some [tag ++ "bad-desc"]
     | some (dbb, pb, pw, sb, sw) =>
-    match thr.toNat?, tgt.toNat?, fnex.toNat?, bulk.toNat?, par.toNat?, strInt tdb, pDbMap dbmap, now.toNat?, npre.toNat? with
-    | some thr, some tgt, some fnex, some bulk, some par, some tdb, some dbmap, some now, some npre =>
+    match thr.toNat?, tgt.toNat?, fnex.toNat?, bulk.toNat?, par.toNat?, strInt tdb, pDbMap dbmap, now.toNat?, npre.toNat?, tick.toNat? with
+    | some thr, some tgt, some fnex, some bulk, some par, some tdb, some dbmap, some now, some npre, some tick =>
       match pPre npre rest with
       | some (pre, rest1) =>
         match pBytes rest1 with
         | some (bs, []) =>
           let cfg : RCfg := { x := { tgtMajor := tgt, fnExists := fnex }, enableRestore := restore == "1",
-                              maxBulk := bulk, parallel := par, targetDb := tdb, dbMap := dbmap, now := now,
+                              maxBulk := bulk, parallel := par, targetDb := tdb, dbMap := dbmap, now := now, tick := tick,
                               filterDb := fun d => dbb.contains d, filterKey := keyFilter pb pw sb sw }
           let (logs, ok) := sendRdb { thr, failModAux := modaux == "1" } cfg pre bs
           if ok then
@@ -567,7 +597,7 @@ def handle : List String → Option (List String)
           else some [tag ++ "result err"]
         | _ => some [tag ++ "bad-desc"]
       | none => some [tag ++ "bad-desc"]
-    | _, _, _, _, _, _, _, _, _ => some [tag ++ "bad-desc"]
+    | _, _, _, _, _, _, _, _, _, _ => some [tag ++ "bad-desc"]
   | _ => none
 
 end GunYu.Drive.C03
